@@ -213,18 +213,17 @@ func (ci *index) find(id string) (c *Persistent, ok bool) {
 		return c, true
 	}
 
-	ip, err := netip.ParseAddr(id)
-	if err == nil {
-		// MAC addresses can be successfully parsed as IP addresses.
-		c, ok = ci.findByIP(ip)
-		if ok {
-			return c, true
-		}
-	}
-
+	// Try MAC first, like [Persistent.setID] does: an EUI-64 in the
+	// colon-separated form is also a syntactically valid IPv6 address, but such
+	// an identifier is always stored as a MAC.
 	mac, err := net.ParseMAC(id)
 	if err == nil {
 		return ci.findByMAC(mac)
+	}
+
+	ip, err := netip.ParseAddr(id)
+	if err == nil {
+		return ci.findByIP(ip)
 	}
 
 	subnet, err := netip.ParsePrefix(id)
